@@ -213,11 +213,9 @@ def dfa_to_gnfa(D: DFA) -> GNFA:
     q0 = D.q0
     F = D.F
 
-    # TODO: use an identifier generator to avoid name clashes
-    q_start = State('start')
-    q_accept = State('accept')
-    assert q_start not in Q
-    assert q_accept not in Q
+    from gambatools.dfa_algorithms import fresh_state
+    q_start = State('start') if State('start') not in Q else fresh_state(Q, 'start')
+    q_accept = State('accept') if State('accept') not in Q else fresh_state(Q, 'accept')
 
     Q1: Set[State] = Q | {q_accept, q_start}
     delta1 = defaultdict(lambda: regexp.Zero())  # MutableMapping[Tuple[State, State], regexp.Regexp]
